@@ -2,6 +2,8 @@ mod c01;
 mod c02;
 mod c03;
 mod c12;
+mod c15;
+mod c17;
 mod codec;
 mod common;
 mod crash;
@@ -26,7 +28,9 @@ fn engine_for(prop: &str) -> Box<dyn Engine> {
         "C03" => Box::new(c03::C03),
         "C12" => Box::new(c12::C12),
         "C14" => Box::new(codec::C14),
+        "C15" => Box::new(c15::C15),
         "C16" => Box::new(codec::C16),
+        "C17" => Box::new(c17::C17),
         "C04" => Box::new(qeng::QueryEngine {
             prop: "C04",
             suite: qeng::c04_suite,
